@@ -623,6 +623,13 @@ impl GlobalInferenceCtx<'_> {
 
         let mut idx = 0;
         while let Some((loc, expr)) = to_check.get(idx).copied() {
+            // a cyclic definition (`foo :: foo;`, which is reported as an error on its own)
+            // would otherwise be followed forever
+            if to_check[..idx].contains(&(loc, expr)) {
+                idx += 1;
+                continue;
+            }
+
             let result = match &self.world_bodies[loc.file()][expr] {
                 Expr::Missing
                 | Expr::Lambda(_)
